@@ -75,3 +75,11 @@ def check(prog: Program, rep):
     rep.rule("C08.R5", "node-weighted input: expansion scheme, attribute handling (missing => ignored, present incl. 0 => weighted)", floor=12)
     from rules.common import node_mode_plumbing
     node_mode_plumbing(prog, rep, "C08.R5")
+    rep.rule("C08.R7", "cyclic model: the walks handed out traverse every edge exactly as often as the solver decided (linear-use rule of C14.R1)", floor=6)
+    from rules import c14
+    from rules.common import RuleProxy
+    px = RuleProxy(rep, "C08.R7")
+    c14.trail_loop_rule(prog, px, "C14.R1", prog.own_method("AbstractWalkModelDiGraph", "_reconstruct_eulerian_walk"), ("walk",))
+    c14.trail_loop_rule(prog, px, "C14.R1", prog.own_method("AbstractWalkModelDiGraph", "_build_closed_walk_from_vertex"), ("closed_walk",))
+    c14.residual_rule(prog, px, "C14.R1")
+    c14.splice_rule(prog, px, "C14.R1")
